@@ -543,7 +543,11 @@ func TestC11(t *testing.T) {
 			// corpus files with a parseable structure: every offset near a
 			// structural boundary plus a stride
 			n := int64(0)
-			for _, cf := range gen.SmallCorpus(hx.Pick(3000, 60000)) {
+			corpusLimit := hx.Pick(3000, 60000)
+			if os.Getenv("VERIF_VARIANT") != "" {
+				corpusLimit /= 3 // the variant processes (other GOARCH, build tags) take the smaller files only
+			}
+			for _, cf := range gen.SmallCorpus(corpusLimit) {
 				p, err := fitmodel.Parse(cf.Data)
 				if err != nil {
 					continue
